@@ -4,7 +4,7 @@
    an absolute tolerance the harness derives from the scale of the case), validity, labels,
    mapping (as a set), object identity. *)
 From Coq Require Import Qcanon.
-From DF Require Import Prelude FieldK Region Mesh Ops.
+From DF Require Export Prelude FieldK Region Mesh Ops.
 Open Scope Q_scope.
 
 (* pmin, pmax, n, dims, units, tolerance_factor *)
